@@ -1,6 +1,7 @@
 """C07 -- all interfaces to the same computation return the same numbers; dataframe order.
 
-stage 1  regen Gen/GenTables.v (rank tables, registered classes) from the class files
+stage 1  regen Gen/GenTables.v (rank tables, registered classes) and Gen/GenIfaces.v (wrapper call rows, role decision,
+         dataframe block) from the source
 stage 2  build Props/C07.v (dict_iface_tiles over the regenerated tables, role inference, dataframe order)
 stage 3  correspondence: the Coq model of getBH_dict_level2 (on shapes) against the real function, whose call of
          getBH_level1 is intercepted so that the shapes it hands on are observed; registered classes with their real
@@ -572,6 +573,8 @@ def run(ctx):
     ctx.trusted += [
         "translator translate/gen_tables.py (ast -> registered classes with effective _field_func_kwargs_ndim, base "
         "table and default rank of getBH_dict_level2); cross-checked on every run against the interpreter's tables",
+        "translator translate/gen_ifaces.py (ast -> the 16 getB/H/J/M wrappers as call rows, _validate_getBH_inputs "
+        "as an if-chain, the dataframe block of _getBH_level2; format_star_input compared literally)",
         "hand model coq/Model/DictIface.v of getBH_dict_level2 (shapes only), _validate_getBH_inputs and the dataframe "
         "assembly; the first two tied by correspondence (getBH_level1 intercepted in-process to observe the shapes), "
         "the dataframe model by the implementation-level dataframe oracle",
@@ -579,7 +582,7 @@ def run(ctx):
         "np.squeeze / np.tile / np.array / itertools.product / reshape are modelled, not verified; equality of the "
         "field NUMBERS across interfaces is tested (search), not proved: the field cores are not modelled",
     ]
-    ok = ctx.regen(["GenTables"])
+    ok = ctx.regen(["GenTables", "GenIfaces"])
     built = ctx.build_props() and ok
     if built:
         # the reflexive table obligations of this run: one per registered class row of the regenerated GenTables
